@@ -547,7 +547,7 @@ impl Report {
             self.property, self.tier, self.states, self.total.transitions, self.total.evals, self.total.nontrivial,
             self.total.dontcare, self.total.outcomes.len(), n_unknown, sigs.len() - unknown_sigs.len(), self.exhaustive, wall
         );
-        if self.total.outcomes.len() < 2 {
+        if self.total.outcomes.len() < 2 && std::env::var("HMC_CHILD").is_err() {
             eprintln!("MACHINERY: vacuous exploration (fewer than 2 distinct outcomes)");
             return 2;
         }
